@@ -1,6 +1,7 @@
 package main
 
 import (
+	"regexp"
 	"fmt"
 	"go/ast"
 	"go/token"
@@ -192,6 +193,31 @@ func ruleRecState(c *Ctx) {
 				c.bad(key, in.Pos(), "%s stores &p.%s into an object and returns a reference (%s): the holder outlives the call, so reading from another stream writes the current record's %s behind haveFields (wrong $i, or an index-out-of-range panic when the other record is longer)", fnKey(fn), f.Name(), res.String(), f.Name())
 			} else {
 				c.ok(key, in.Pos(), "alias of p.%s is confined to %s (no reference is returned)", f.Name(), fnKey(fn))
+				// the splitter writes through the alias only when the scan succeeds: a scan in this function
+				// whose result is ignored leaves the previous record's fields in place on failure
+				for _, b := range fn.Blocks {
+					for _, in2 := range b.Instrs {
+						call, ok := in2.(*ssa.Call)
+						if !ok {
+							continue
+						}
+						cal := calleeObj(call)
+						if cal == nil || funcFullName(cal) != "(*bufio.Scanner).Scan" {
+							continue
+						}
+						used := false
+						if refs := call.Referrers(); refs != nil {
+							for _, r := range *refs {
+								if _, isDbg := r.(*ssa.DebugRef); !isDbg {
+									used = true
+								}
+							}
+						}
+						c.check(used, fmt.Sprintf("alias-scan:%s:&p.%s", fnKey(fn), f.Name()), in2.Pos(),
+							"the result of Scan is tested, so a failed parse can reset p."+f.Name(),
+							fnKey(fn)+" lets a splitter write through &p."+f.Name()+" but ignores whether Scan succeeded: for an empty or comment-only record the splitter writes nothing and the previous record's fields stay visible as the fields of the new $0")
+					}
+				}
 			}
 		})
 	}
@@ -375,6 +401,29 @@ func siblingPredicates(c *Ctx) {
 		if !ok || len(cc.List) != 1 {
 			return true
 		}
+		// a local that the clause stores into the separator field stands for that field
+		// (the clause may compute and test the new separator before committing it)
+		alias := map[string]string{}
+		for _, s := range cc.Body {
+			if as, ok := s.(*ast.AssignStmt); ok && len(as.Lhs) == 1 && len(as.Rhs) == 1 {
+				if id, ok := as.Rhs[0].(*ast.Ident); ok {
+					switch types.ExprString(as.Lhs[0]) {
+					case "p.fieldSep":
+						alias[id.Name] = "FS"
+					case "p.recordSep":
+						alias[id.Name] = "RS"
+					}
+				}
+			}
+		}
+		plainNorm := norm
+		norm := func(s string) string {
+			s = plainNorm(s)
+			for k, v := range alias {
+				s = regexp.MustCompile(`\b`+regexp.QuoteMeta(k)+`\b`).ReplaceAllString(s, v)
+			}
+			return s
+		}
 		switch constName(info, cc.List[0]) {
 		case "V_FS":
 			for _, s := range cc.Body {
@@ -479,6 +528,48 @@ func siblingPredicates(c *Ctx) {
 		}
 	})
 	c.check(nStores >= len(rsCases) && !nilStore, "sibling-pred:RS-regex-assigned", ss.Pos(), "every RS case (re)assigns the separator regex seen by an active regex splitter, never to nil", fmt.Sprintf("assigning RS stores the separator regex in %d places for %d cases (nil store: %v): an active regex splitter, which holds a pointer to that field, would keep a stale regex or dereference nil", nStores, len(rsCases), nilStore))
+	// the separator text and its compiled form are committed together: after the text has been stored
+	// no path may still fail (RS and FS persist across runs of a reused Interpreter, and the splitters
+	// pick the regex path from the text alone)
+	for _, f := range []string{"fieldSep", "recordSep"} {
+		found := false
+		bad := token.NoPos
+		for _, b := range ssa1.Blocks {
+			for _, in := range b.Instrs {
+				if name, _ := interpFieldStore(in); name == f {
+					found = true
+					for rb := range reachableFrom(b) {
+						if len(rb.Instrs) == 0 {
+							continue
+						}
+						if ret, ok := rb.Instrs[len(rb.Instrs)-1].(*ssa.Return); ok {
+							rr := retResults(ret)
+							if len(rr) > 0 && !isNilConst(rr[len(rr)-1]) {
+								if ph, isPhi := rr[len(rr)-1].(*ssa.Phi); isPhi {
+									all := true
+									for _, e := range ph.Edges {
+										if !isNilConst(e) {
+											all = false
+										}
+									}
+									if all {
+										continue
+									}
+								}
+								bad = ret.Pos()
+							}
+						}
+					}
+				}
+			}
+		}
+		if !found {
+			c.undecided("sep-commit:"+f, ss.Pos(), "setSpecial does not store p.%s", f)
+			continue
+		}
+		c.check(bad == token.NoPos, "sep-commit:"+f, bad, "p."+f+" is stored only after everything that can fail has succeeded",
+			"setSpecial stores p."+f+" and can still return an error afterwards (an invalid regex): the separator text then names a regex that was never compiled, and the next Execute of a reused Interpreter dereferences a nil *regexp.Regexp in the splitter")
+	}
 }
 
 func nodeText(n ast.Node) string {
